@@ -83,6 +83,7 @@ static uint64_t run_matrix(const QMat& M, Ctx& c)
       return 5;
    }
    c.count("nonsingular");
+   if(c.wantSample() && n == 3) c.sample("{\"matrix\":" + jstr(qmat_str(M)) + ",\"det\":" + jstr(det.get_str()) + "}");
    // does the double image differ? (counted for the evidence)
    {
       std::vector<std::vector<Q>> D(n, std::vector<Q>(n));
